@@ -437,6 +437,9 @@ func (f File) Generate(inputWriter io.Writer, settings GenerateSettings) error {
 	if err := f.Validate(); err != nil {
 		return fmt.Errorf("cannot generate file: %w", err)
 	}
+	if err := f.checkGoNames(settings); err != nil {
+		return fmt.Errorf("cannot generate file: %w", err)
+	}
 	settings.typeMarshallers = f.typeMarshallers()
 	settings.typeByters = f.typeByters()
 	settings.typeByteReaders = f.typeByteReaders(settings)
